@@ -273,3 +273,15 @@ Theorem c13_bridge_error_reply_parsed : forall (data : bytes) (rs : list parsed_
     (valid_utf8 (pr_id r) = true -> we_data e = [] -> (forall c, In c b -> 32 <= c) /\ valid_utf8 b = true).
 Proof. exact bridge_error_reply_parsed. Qed.
 Print Assumptions c13_bridge_error_reply_parsed.
+
+(* -- ParseRequests: one entry per batch member, in order, tied to the JSON value ------------------ *)
+
+Theorem c13_member_correspondence : forall (s : bytes) (xs : list json), parse s = Some (JArr xs) ->
+  exists raws, split_msgs s = Some (true, raws) /\ Forall2 (fun r x => parse r = Some x) raws xs.
+Proof. exact member_correspondence. Qed.
+Print Assumptions c13_member_correspondence.
+
+Theorem c13_member_correspondence_single : forall (s : bytes) (x : json), parse s = Some x -> (forall xs, x <> JArr xs) ->
+  exists raw, split_msgs s = Some (false, [raw]) /\ parse raw = Some x.
+Proof. exact member_correspondence_single. Qed.
+Print Assumptions c13_member_correspondence_single.
